@@ -38,4 +38,33 @@ theorem attrs_or40 (a i : Nat) (hi : i ≠ 6) : (a ||| 0x40).testBit i = a.testB
     rw [show (0x40 : Nat) = 2 ^ 6 by rfl, Nat.testBit_two_pow]; simp; omega
   rw [this, Bool.or_false]
 
+theorem attrs_clear40 (a i : Nat) (hi : i < 32) (h6 : i ≠ 6) : (a &&& (2 ^ 32 - 1 - 0x40)).testBit i = a.testBit i := by
+  rw [Nat.testBit_and]
+  have : ∀ j, j < 32 → j ≠ 6 → Nat.testBit (2 ^ 32 - 1 - 0x40) j = true := by decide
+  rw [this i hi h6, Bool.and_true]
+
+theorem attrs_clear40_6 (a : Nat) : (a &&& (2 ^ 32 - 1 - 0x40)).testBit 6 = false := by
+  rw [Nat.testBit_and]
+  have : Nat.testBit (2 ^ 32 - 1 - 0x40) 6 = false := by decide
+  rw [this, Bool.and_false]
+
+theorem tb_bit (i j : Nat) : (bit i).testBit j = decide (i = j) := by
+  unfold bit; rw [Nat.testBit_two_pow]
+
+/-- x86: the GP preserved mask after `finalize` -/
+theorem preserved0C_x86 (g : Frame) (hfpid : g.arch.fpId = 5) (hlr : g.arch.lrId = none) (h16 : g.preserved 0 < 2 ^ 16)
+    (h4 : (g.preserved 0).testBit 4 = false) :
+    g.preserved0C < 2 ^ 16 ∧ g.preserved0C.testBit 4 = false ∧ (g.hasFP = true → g.preserved0C.testBit 5 = true) := by
+  unfold Frame.preserved0C
+  cases hfp : g.hasFP with
+  | false => simp only [Bool.false_eq_true, if_false]; exact ⟨h16, h4, fun h => absurd h (by simp)⟩
+  | true =>
+    simp only [if_true, hfpid, hlr]
+    have hlt : (g.preserved 0 ||| bit 5) ||| 0 < 2 ^ 16 := by
+      rw [Nat.or_zero]; exact Nat.or_lt_two_pow h16 (by decide)
+    have hu : u32 ((g.preserved 0 ||| bit 5) ||| 0) = (g.preserved 0 ||| bit 5) ||| 0 := Nat.mod_eq_of_lt (by omega)
+    rw [hu]
+    refine ⟨hlt, ?_, fun _ => tb_or_left _ _ _ (tb_or_bit _ 5)⟩
+    rw [Nat.or_zero, Nat.testBit_or, h4, tb_bit]; rfl
+
 end AsmjitVerif.Frame
